@@ -8,7 +8,7 @@ RELATED = {"C01": "C01,C06,C04", "C02": "C02,C14,C05", "C03": "C03,C02", "C04": 
            "C14": "C14,C02", "C15": "C15,C17", "C16": "C16", "C17": "C17,C15"}
 allp = "--all-props" in sys.argv
 for pid in [a for a in sys.argv[1:] if not a.startswith("--")]:
-    for diff in sorted(glob.glob("/tmp/mut/%s_out/m*.diff" % pid)):
+    for diff in sorted(glob.glob(os.environ.get("MUT_DIR", "/tmp/mut") + "/%s_out/m*.diff" % pid)):
         k = os.path.basename(diff)[:-5]
         demo = diff[:-5] + "_demo.py"
         props = RELATED[pid] if not allp else ""
